@@ -395,6 +395,19 @@ class Oracle:
                 self.report("correlation-affine", "correlation_coeff = %r, but %r after rescaling %s -> %r*v + %r"
                             % (g, g2, "xy"[which], al, be), xs2, ys2, "cf.correlation_coeff()")
 
+        # pure changes of scale over 1e-7 .. 1e7 (the coefficient has no absolute threshold to cross)
+        for which in (0, 1, 2):
+            sc = rng.choice([1e-7, 2.0 ** -20, 1e-4, 1e4, 1e7])
+            xs2 = [sc * x for x in xs] if which in (0, 2) else list(xs)
+            ys2 = [sc * y for y in ys] if which in (1, 2) else list(ys)
+            ref2 = R.correlation(xs2, ys2)
+            if ref2 is None or ref2[1] > 1e-7: continue
+            self.n += 1; self.nontrivial += 1
+            g2 = call(CF(xs2, ys2).correlation_coeff)
+            if g2[0] != "ok" or not (abs(g2[1] - ref2[0]) <= 1e-6) or not (abs(g2[1] - g) <= 2e-6):
+                self.report("correlation-scale", "correlation_coeff = %r, but %r after multiplying %s by %r (exact value %r)"
+                            % (g, g2, ("x", "y", "x and y")[which], sc, ref2[0]), xs2, ys2, "cf.correlation_coeff()")
+
     # --- degenerate data
     def degenerate(self, rng):
         CF = self.CF
@@ -521,6 +534,13 @@ def search(rng, tier, deep):
         a = rng.choice([rng.uniform(-5, 5), 2.0, -0.5]); b = rng.uniform(-100, 100)
         if a == 0: a = 1.0
         O.corr(rng, xs, [a * x + b for x in xs], collinear=True)
+    # finely spaced / tiny abscissae (spacing 2^-20, scale 1e-7): regular data for the correlation coefficient
+    for it in range(200 if full else 40):
+        n = rng.randint(3, 12)
+        h = rng.choice([2.0 ** -20, 1e-7, 2.0 ** -10])
+        xs = [h * i for i in rng.sample(range(-20, 21), n)]
+        ys = [rng.choice([1.0, 1e-7, 1e3]) * rng.uniform(-5, 5) for _ in range(n)]
+        O.corr(rng, xs, ys)
     for it in range(400 if full else 80):
         O.degenerate(rng)
     stats = {"evaluations": O.n, "distinct_nontrivial": O.nontrivial,
